@@ -4,24 +4,27 @@ usage: seedtest.py <patch.diff> <ID> [<ID> ...]     (prints per check: exit code
 import subprocess
 import sys
 
+import os
+REPO = os.environ.get("VERIF_REPO", "/repo")
 patch, ids = sys.argv[1], sys.argv[2:]
 tier = "quick"
 if ids and ids[-1] in ("quick", "thorough"):
     tier = ids.pop()
-st = subprocess.run(["git", "-C", "/repo", "status", "--porcelain"], capture_output=True, text=True).stdout.strip()
+st = subprocess.run(["git", "-C", REPO, "status", "--porcelain"], capture_output=True, text=True).stdout.strip()
 if st:
-    sys.exit("refusing: /repo is not clean:\n" + st)
-r = subprocess.run(["git", "-C", "/repo", "apply", "-3", patch], capture_output=True, text=True)
+    sys.exit("refusing: %s is not clean:\n%s" % (REPO, st))
+r = subprocess.run(["git", "-C", REPO, "apply", "-3", patch], capture_output=True, text=True)
 if r.returncode != 0:
-    subprocess.run(["git", "-C", "/repo", "reset", "-q", "--hard", "HEAD"])
+    subprocess.run(["git", "-C", REPO, "reset", "-q", "--hard", "HEAD"])
     sys.exit("patch does not apply: " + r.stderr[-500:])
 try:
     for i in ids:
-        p = subprocess.run(["/verif/check", i, tier], capture_output=True, text=True, cwd="/verif")
+        here = os.path.dirname(os.path.dirname(os.path.abspath(__file__)))
+        p = subprocess.run([os.path.join(here, "check"), i, tier], capture_output=True, text=True, cwd=here)
         v = [l for l in p.stdout.splitlines() if l.startswith("VIOLATION")]
         print("%s %s: exit=%d violations=%d %s" % (patch, i, p.returncode, len(v), (p.stdout.splitlines()[1:2] or [""])[0][:160] if v else p.stdout.strip().splitlines()[-1:]))
         if p.returncode == 2:
             print(p.stderr[-1500:])
 finally:
-    subprocess.run(["git", "-C", "/repo", "reset", "-q", "--hard", "HEAD"])
-    subprocess.run(["git", "-C", "/repo", "clean", "-fdq"])
+    subprocess.run(["git", "-C", REPO, "reset", "-q", "--hard", "HEAD"])
+    subprocess.run(["git", "-C", REPO, "clean", "-fdq"])
